@@ -551,6 +551,57 @@ def run_varray(item, t):
                 else:
                     M = model([(sel[p], news[p] if nm == "full" else news[j]) for j, p in enumerate(q)])
                     after(pre + "setitem.mask-vector", "w.size[mask %s]=IntArray%s (%s)" % (ms2, news, nm), M, exc, w)
+        # mask forms, masks of BOTH admissible lengths applied to the masked reference: the VIEW's length k (position p of the mask
+        # speaks about row sel[p]) and the UNMASKED length n of v (position j of the mask speaks about row j of v; the library's
+        # match_dimension admits both lengths on a masked reference, "the mask may have the masked or the unmasked length").
+        # Oracle (a priori, the nested-list model of the statement): w denotes the rows of v selected by m1, a mask store through w
+        # may touch only rows of w, and of those exactly the ones the mask selects: row j of v changes iff m1[j] and
+        # (mask2[position of j in w] for a mask of length k / mask2[j] for a mask of length n). Every other row keeps its size
+        # and contents. A refusal (exception) is accepted when nothing changed. When k == n the two readings coincide.
+        # Forms: w.size[mask2] = scalar, w.size[mask2] = IntArray (length n, k and compressed), and the row store
+        # w[mask2] = data (data of the common length of the addressed rows; only asked when they share one length, because a
+        # length mismatch half-way is a different relation).
+        upre = "nd.FixedVArray.masked-reference."
+        for space, L in (("view-length-mask", k), ("unmasked-length-mask", n)):
+            if space == "unmasked-length-mask" and k == n: continue
+            for mask2 in masks_of(L):
+                m2 = int_array(mask2); ms2 = "".join(map(str, mask2)) or "<empty>"
+                rows = [sel[p] for p in range(k) if mask2[p]] if L == k else [j for j in sel if mask2[j]]
+                hit_by_position = [sel[p] for p in range(k) if p < L and mask2[p]]        # what indexing an unmasked-length mask by view position would select
+                if space == "unmasked-length-mask":
+                    t.cls("nd.varray.masked-reference.unmasked-length-mask")
+                    if rows != hit_by_position: t.cls("nd.varray.masked-reference.unmasked-length-mask.position-and-raw-index-disagree")
+                tag = "mask(len %s=%d) %s" % ("k" if L == k else "n", L, ms2)
+                if space == "unmasked-length-mask":      # (the view-length size forms are judged above)
+                    t.add("transitions", 4)
+                    w = a[m]
+                    _, exc = attempt(t, pre + "setitem", lambda: w.size.__setitem__(m2, NEW))
+                    if exc: unchanged(pre + "setitem.mask-scalar.unmasked-length-mask.refused-but-modified", "w.size[%s]=%d" % (tag, NEW), exc)
+                    else: after(pre + "setitem.mask-scalar.unmasked-length-mask", "w.size[%s]=%d" % (tag, NEW), model([(j, NEW) for j in rows]), exc, w)
+                    for news, nm in (([NEW + j for j in range(n)], "length n"), ([NEW + p for p in range(k)], "length k"), ([NEW + q for q in range(len(rows))], "compressed")):
+                        w = a[m]
+                        _, exc = attempt(t, pre + "setitem", lambda: w.size.__setitem__(m2, int_array(news)))
+                        if exc: unchanged(pre + "setitem.mask-vector.unmasked-length-mask.refused-but-modified", "w.size[%s]=IntArray%s" % (tag, news), exc)
+                        elif nm == "compressed" and len(news) in (n, k): pass          # indistinguishable from the full-length reading
+                        else:
+                            M = model([(j, news[j] if nm == "length n" else news[sel.index(j)] if nm == "length k" else news[q]) for q, j in enumerate(rows)])
+                            after(pre + "setitem.mask-vector.unmasked-length-mask", "w.size[%s]=IntArray%s (%s)" % (tag, news, nm), M, exc, w)
+                # row store w[mask2] = data
+                rs = set(sizes[j] for j in rows)
+                if len(rs) > 1: continue
+                s = rs.pop() if rs else 1
+                t.add("transitions")
+                t.cls("nd.varray.masked-reference.row-store." + space)
+                w = a[m]
+                _, exc = attempt(t, upre + "row-store", lambda: w.__setitem__(m2, vec([60 + j for j in range(s)])))
+                what = "w[%s]=array(len %d)" % (tag, s)
+                site = upre + "row-store.mask-scalar." + space
+                if exc: unchanged(site + ".refused-but-modified", what, exc)
+                else:
+                    M = [[60 + j for j in range(s)] if i in rows else list(base[i]) for i in range(n)]
+                    t.add("evaluations")
+                    if read(a) != want(M): t.fail(site, ctx + wh + what, want(M), read(a))
+                    if read(a) != want(base): fresh()
         # read-only twin: no store form through a masked reference of it may resize anything
         wr, exc = attempt(t, pre + "readonly", lambda: ro[m])
         if not exc:
@@ -817,6 +868,8 @@ def run(R, thorough):
     R.declare("nd.2d.mask", "nd.2d.mask-wrong-shape", "nd.varray.mask", "nd.varray.mask-wrong-length", "nd.2d.malformed-index", "nd.varray.mask.slice-of-non-adjacent-rows", "nd.matrix.row-store-from-masked-reference")
     R.declare("nd.varray.masked-size-helper.mask-not-a-leading-run", "nd.varray.masked-size-helper.int.out-of-range", "nd.varray.masked-size-helper.selected-rows-differ-from-raw-rows",
               "nd.varray.masked-size-helper.vector-store", "nd.varray.masked-size-helper.mask-store.partial-mask")
+    R.declare("nd.varray.masked-reference.unmasked-length-mask", "nd.varray.masked-reference.unmasked-length-mask.position-and-raw-index-disagree",
+              "nd.varray.masked-reference.row-store.view-length-mask", "nd.varray.masked-reference.row-store.unmasked-length-mask")
     ok = fork_map(run_any, items, R, "nd.worker.fatal", describe=repr)
     malformed_2d(R)
     msg = ("FixedArray2D %s sizes 0..3x0..3 (one dimension exhaustive: ints -4..4, every forward slice start,stop in {None,-4..4} step in {None,1,2,3}, zero step; other dimension 5 representatives; all masks); "
